@@ -5,7 +5,18 @@
 //! Restrictions of the value generator (every one is a restriction of the GENERATOR, the oracle has
 //! no catch-all):
 //! * origin user/id/version, candidate transport/typ/extension keys+values: non-empty, no ASCII
-//!   whitespace (the parser's own field separator), no CR/LF;
+//!   whitespace (the parser's own field separator), no CR/LF; every code point >= U+0080 is an
+//!   ordinary token character (RFC 8866 `non-ws-string = 1*(VCHAR / %x80-FF)`), in particular the
+//!   Unicode white-space code points that are NOT ASCII white space (U+0085, U+00A0, U+1680,
+//!   U+2000..U+200A, U+2028, U+2029, U+202F, U+205F, U+3000) and invisible format characters
+//!   (U+00AD, U+180E, U+200B, U+2060, U+FEFF): `EXOTIC_TOKEN_CHARS`, generated at the start, in the
+//!   middle and at the end of a token. U+000B is outside `non-ws-string` and never generated;
+//! * near misses of well-known tokens (`near_miss`): an `Other` protocol / `Ext` suite / `Ext`
+//!   session parameter / unknown attribute name / candidate extension key may be a well-known token
+//!   in another letter case (all lower, all upper, swapped, one letter flipped, capitalised), a
+//!   proper prefix or a proper suffix of it, or the token with a suffix appended — never the
+//!   well-known spelling itself (SDP tokens are compared case-sensitively by the API: `Ext("x")`
+//!   and the built-in variant are different values);
 //! * `Other` protocol tokens follow RFC 8866 `proto = token *("/" token)`;
 //! * FQDNs: 1..4 non-empty labels of `[A-Za-z0-9_-]` joined by `.`, never text that is itself an
 //!   IPv4/IPv6 literal (DESIGN 1.2: "host names are not dotted quads");
@@ -16,7 +27,8 @@
 //!   like an attribute the crate parses itself (DESIGN "Not asserted");
 //! * ice-options tags 1..8 `ice-char`, ufrag 4..256, pwd 22..256 `ice-char`;
 //! * rtpmap encoding: non-empty token without `/`; rtpmap params: non-empty, no whitespace;
-//! * fmtp params: non-empty, first character not a blank (DESIGN "Not asserted");
+//! * fmtp params: non-empty, first character not an ASCII blank (DESIGN "Not asserted"); a first
+//!   character that is a non-ASCII white-space code point is ordinary `byte-string` content;
 //! * crypto: 1..3 keys (never an empty key list, never `FecKey([])`), key text non-empty base64
 //!   alphabet, `Ext` suite `[A-Za-z0-9_]+` that is not exactly a well-known suite name, `Ext` session
 //!   parameter: visible ASCII, not starting with `-`, not starting with a well-known parameter name
@@ -241,8 +253,19 @@ pub const KNOWN_ATTR_NAMES: [&str; 14] = [
     "inactive",
     "end-of-candidates",
 ];
-const PARAM_FLAGS: [&str; 3] = ["UNENCRYPTED_SRTP", "UNENCRYPTED_SRTCP", "UNAUTHENTICATED_SRTP"];
+pub const PARAM_FLAGS: [&str; 3] = ["UNENCRYPTED_SRTP", "UNENCRYPTED_SRTCP", "UNAUTHENTICATED_SRTP"];
 const PARAM_KEYED: [&str; 4] = ["KDR=", "FEC_ORDER=", "FEC_KEY=", "WSH="];
+/// (name, a value that is valid for the well-known parameter of that name)
+const PARAM_KEYED_SAMPLES: [(&str, &str); 6] = [
+    ("KDR=", "5"),
+    ("KDR=", "24"),
+    ("WSH=", "64"),
+    ("FEC_ORDER=", "FEC_SRTP"),
+    ("FEC_ORDER=", "SRTP_FEC"),
+    ("FEC_KEY=", "inline:QUJDREVGR0g="),
+];
+/// candidate extension keys the crate interprets itself, and the literal in front of the type
+pub const CAND_KEYWORDS: [&str; 3] = ["raddr", "rport", "typ"];
 
 // ---------------------------------------------------------------------------------------------
 // leaf strategies
@@ -281,14 +304,126 @@ pub fn edge_u64() -> BoxedStrategy<u64> {
     .boxed()
 }
 
+/// Code points >= U+0080 that Unicode classifies as white space (the first 19: everything with the
+/// `White_Space` property outside ASCII) or that render as nothing (the last 5). None of them is
+/// ASCII white space, the only separator of SDP fields; inside a `non-ws-string` they are token
+/// content.
+pub const EXOTIC_TOKEN_CHARS: [char; 24] = [
+    '\u{85}', '\u{a0}', '\u{1680}', '\u{2000}', '\u{2001}', '\u{2002}', '\u{2003}', '\u{2004}', '\u{2005}',
+    '\u{2006}', '\u{2007}', '\u{2008}', '\u{2009}', '\u{200a}', '\u{2028}', '\u{2029}', '\u{202f}', '\u{205f}',
+    '\u{3000}', '\u{ad}', '\u{180e}', '\u{200b}', '\u{2060}', '\u{feff}',
+];
+
+/// a code point that is white space for Unicode but not for ASCII
+pub fn is_unicode_only_ws(c: char) -> bool {
+    !c.is_ascii() && c.is_whitespace()
+}
+
+fn exotic_char() -> BoxedStrategy<char> {
+    prop::sample::select(EXOTIC_TOKEN_CHARS.to_vec()).boxed()
+}
+
+/// a token with 1..2 exotic code points: leading, embedded, trailing, or nothing else at all
+fn exotic_token() -> BoxedStrategy<String> {
+    (
+        "[A-Za-z0-9]{0,4}",
+        exotic_char(),
+        "[!-~]{0,4}",
+        option::weighted(0.3, exotic_char()),
+        "[A-Za-z0-9é]{0,3}",
+    )
+        .prop_map(|(a, x, b, y, c)| {
+            let mut s = a;
+            s.push(x);
+            s.push_str(&b);
+            if let Some(y) = y {
+                s.push(y);
+            }
+            s.push_str(&c);
+            s
+        })
+        .boxed()
+}
+
 /// non-empty text without ASCII whitespace
 fn nonws() -> BoxedStrategy<String> {
     prop_oneof![
         6 => "[A-Za-z0-9]{1,10}",
         3 => "[!-~]{1,12}",
         1 => "[!-~¡-ÿ一-丠😀-😏]{1,6}",
+        2 => exotic_token(),
     ]
     .boxed()
+}
+
+/// Near misses of a well-known token `k` (never `k` itself unless `k` has no letters and the
+/// caller's own guard applies): `mode` 0 lower case, 1 upper case, 2 every letter's case swapped,
+/// 3 one letter (chosen by `sel`) flipped, 4 first letter upper / rest lower, 5 proper non-empty
+/// prefix, 6 proper non-empty suffix. Characters are only re-cased or removed, so the result stays
+/// inside whatever character class `k` is in.
+pub fn near_miss_of(k: &str, mode: u8, sel: u16) -> String {
+    use crate::engine::pick_idx;
+    let chars: Vec<char> = k.chars().collect();
+    let swap = |c: char| if c.is_ascii_lowercase() { c.to_ascii_uppercase() } else { c.to_ascii_lowercase() };
+    let out: String = match mode % 7 {
+        0 => k.to_ascii_lowercase(),
+        1 => k.to_ascii_uppercase(),
+        2 => chars.iter().map(|c| swap(*c)).collect(),
+        3 => {
+            let letters: Vec<usize> = (0..chars.len()).filter(|i| chars[*i].is_ascii_alphabetic()).collect();
+            let mut v = chars.clone();
+            if !letters.is_empty() {
+                let i = letters[pick_idx(sel, letters.len())];
+                v[i] = swap(v[i]);
+            }
+            v.into_iter().collect()
+        }
+        4 => {
+            let mut first = true;
+            chars
+                .iter()
+                .map(|c| {
+                    if c.is_ascii_alphabetic() && first {
+                        first = false;
+                        c.to_ascii_uppercase()
+                    } else {
+                        c.to_ascii_lowercase()
+                    }
+                })
+                .collect()
+        }
+        5 if chars.len() >= 2 => chars[..1 + pick_idx(sel, chars.len() - 1)].iter().collect(),
+        6 if chars.len() >= 2 => chars[1 + pick_idx(sel, chars.len() - 1)..].iter().collect(),
+        _ => k.to_string(),
+    };
+    if out == k {
+        // lower(k) == k (e.g. "udp") or upper(k) == k: take the opposite case
+        let o: String = chars.iter().map(|c| swap(*c)).collect();
+        return o;
+    }
+    out
+}
+
+fn near_miss(names: &'static [&'static str]) -> BoxedStrategy<String> {
+    (prop::sample::select(names.to_vec()), 0u8..7, any::<u16>())
+        .prop_map(|(k, mode, sel)| near_miss_of(k, mode, sel))
+        .boxed()
+}
+
+/// how `s` relates to the well-known tokens `names` (class labels / non-trivial accounting)
+pub fn near_miss_kind(s: &str, names: &[&str]) -> Option<&'static str> {
+    if names.contains(&s) {
+        return None;
+    }
+    if names.iter().any(|k| s.eq_ignore_ascii_case(k)) {
+        Some("case-variant")
+    } else if names.iter().any(|k| s.starts_with(k)) {
+        Some("extending-wellknown")
+    } else if s.len() >= 2 && names.iter().any(|k| k.starts_with(s) || k.ends_with(s)) {
+        Some("part-of-wellknown")
+    } else {
+        None
+    }
 }
 
 fn is_ip_literal(s: &str) -> bool {
@@ -412,6 +547,18 @@ fn line_text(max: usize) -> BoxedStrategy<String> {
     prop_oneof![
         4 => proptest::string::string_regex(&format!("[ -~]{{0,{max}}}")).unwrap(),
         1 => proptest::string::string_regex(&format!("[^\r\n]{{0,{}}}", max / 2)).unwrap(),
+        // non-ASCII white space at the edges (a parser that trims must trim ASCII blanks at most)
+        1 => (option::of(exotic_char()), "[ -~]{0,6}", option::of(exotic_char())).prop_map(|(x, mid, y)| {
+            let mut s = String::new();
+            if let Some(x) = x {
+                s.push(x);
+            }
+            s.push_str(&mid);
+            if let Some(y) = y {
+                s.push(y);
+            }
+            s
+        }),
     ]
     .boxed()
 }
@@ -423,6 +570,9 @@ fn attr() -> BoxedStrategy<AttrC> {
         // names that merely *extend* / resemble a known one are ordinary unknown attributes
         2 => (prop::sample::select(KNOWN_ATTR_NAMES.to_vec()), "[a-z0-9-]{1,3}")
             .prop_map(|(k, s)| format!("{k}{s}")),
+        // ... or are spelled in another letter case / are a part of one (attribute names are
+        // case-sensitive tokens, `a=SendRecv` is not a direction)
+        2 => near_miss(&KNOWN_ATTR_NAMES),
         1 => prop::sample::select(vec!["mid", "rtcp-mux", "ssrc", "setup", "fingerprint", "rtcp-fb", "ptime", "x-rtpmap"]).prop_map(String::from),
     ]
     .prop_map(|mut n: String| {
@@ -508,6 +658,12 @@ fn proto() -> BoxedStrategy<ProtoC> {
             .prop_map(|(k, s)| other_proto(format!("{k}{s}"))),
         1 => vec(prop_oneof![3 => "[A-Za-z0-9_.-]{1,6}", 1 => "[!#-'*+\\-.0-9A-Z^-~]{1,6}"], 1..=4)
             .prop_map(|t| other_proto(t.join("/"))),
+        // a well-known token in another letter case, or a part of one; parts are cut back to the
+        // proto grammar (no leading / trailing '/')
+        2 => near_miss(&PROTO_NAMES).prop_map(|s| {
+            let t = s.trim_matches('/');
+            other_proto(if t.is_empty() { "x".to_string() } else { t.to_string() })
+        }),
     ]
     .boxed()
 }
@@ -518,6 +674,8 @@ fn suite() -> BoxedStrategy<SuiteC> {
         2 => (0usize..SUITE_NAMES.len(), "[A-Za-z0-9_]{1,3}")
             .prop_map(|(i, s)| ext_suite(format!("{}{}", SUITE_NAMES[i], s))),
         1 => "[A-Za-z0-9_]{1,16}".prop_map(ext_suite),
+        // a well-known suite name in another letter case, or a part of one
+        2 => near_miss(&SUITE_NAMES).prop_map(ext_suite),
     ]
     .boxed()
 }
@@ -563,6 +721,13 @@ fn param() -> BoxedStrategy<ParamC> {
             // an extension whose name merely extends a well-known flag (RFC 4568 9.2:
             // srtp-session-extension = ["-"] 1*VCHAR, parameters are separated by blanks)
             1 => (prop::sample::select(PARAM_FLAGS.to_vec()), "[A-Z0-9_]{1,3}").prop_map(|(k, s)| format!("{k}{s}")),
+            // a well-known flag in another letter case / a part of one
+            1 => near_miss(&PARAM_FLAGS),
+            // a well-known keyed parameter whose name is in another letter case (modes 0..=4 only:
+            // a part of the name is just some extension)
+            1 => (prop::sample::select(PARAM_KEYED_SAMPLES.to_vec()), 0u8..5, any::<u16>()).prop_map(|((k, v), mode, sel)| {
+                format!("{}{v}", near_miss_of(k, mode, sel))
+            }),
         ]
         .prop_map(|mut s: String| {
             // not a (malformed) well-known parameter and no leading '-'
@@ -601,6 +766,8 @@ fn candidate() -> BoxedStrategy<CandC> {
     let ext_key = prop_oneof![
         3 => prop::sample::select(vec!["tcptype", "generation", "ufrag", "network-id", "network-cost", "raddrx", "rport2", "typ"]).prop_map(String::from),
         1 => nonws(),
+        // the crate's own keys in another letter case / a part of one
+        1 => near_miss(&CAND_KEYWORDS),
     ]
     .prop_map(|mut k: String| {
         // raddr / rport are the crate's own keys
@@ -659,6 +826,15 @@ fn fmtp() -> BoxedStrategy<FmtpC> {
             3 => "[a-z-]{1,10}=[a-z0-9]{1,6}(;[a-z-]{1,8}=[0-9]{1,4}){0,2}",
             2 => "[!-~][ -~]{0,20}",
             1 => "[!-~¡-ÿ][^\r\n]{0,8}",
+            // first / last character a non-ASCII white-space code point
+            1 => (exotic_char(), "[ -~]{0,8}", option::of(exotic_char())).prop_map(|(x, mid, y)| {
+                let mut s = String::from(x);
+                s.push_str(&mid);
+                if let Some(y) = y {
+                    s.push(y);
+                }
+                s
+            }),
         ],
     )
         .prop_map(|(format, params)| FmtpC { format, params })
